@@ -41,7 +41,7 @@ SCALAR_KINDS = ["with", "update_attr", "transform_attr", "reset_attr", "update",
 
 
 def GATES(tier):
-    return [("relations_judged", 500)] + [(f"rel:{r}", 15) for r in ("M", "R1", "R2", "R3", "R4", "R5", "R6", "N", "D")] + [(f"kind:{k}", 10) for k in SCALAR_KINDS]
+    return [("relations_judged", 500), ("constant_transform_calls", 20)] + [(f"rel:{r}", 15) for r in ("M", "R1", "R2", "R3", "R4", "R5", "R6", "N", "D")] + [(f"kind:{k}", 10) for k in SCALAR_KINDS]
 
 
 def oc(step):
@@ -258,7 +258,55 @@ def _reprepare(world, cname, attr, a):
 # -- relations -------------------------------------------------------------------
 
 
+CONST_SRC = """
+from spec_classes import spec_class
+
+@spec_class(bootstrap={boot})
+class Inner:
+    x: int = 0
+    y: int = 0
+
+@spec_class(bootstrap={boot})
+class Outer:
+    inner: Inner = Inner()
+    n: int = 0
+"""
+
+
+def directed_constant_transforms(ctx):
+    """transform_<a>(f, **attr transforms) stores f(old) with the attribute transforms applied - for a *constant* f (a pure
+    function handing back one pre-existing object) just as for any other: the same call gives the same state every time, and
+    the object f hands back is not where the attribute transforms are written."""
+    for boot in (True, False):
+        ns = cg.exec_module(CONST_SRC.format(boot=boot), prefix="verif_c05c").__dict__
+        Inner, Outer = ns["Inner"], ns["Outer"]
+        template, whole = Inner(x=10, y=20), Outer(inner=Inner(x=5, y=5), n=7)
+        calls = [
+            ("transform_inner(const, x=inc)", lambda o, ip: o.transform_inner(lambda cur: template, x=lambda v: v + 1, _inplace=ip), lambda r: (r.inner.x, r.inner.y), (11, 20)),
+            ("transform(inner=const) then transform_inner(x=inc)", lambda o, ip: o.transform(inner=lambda cur: template, _inplace=ip).transform_inner(x=lambda v: v + 1, _inplace=ip), lambda r: (r.inner.x, r.inner.y), (11, 20)),
+            ("transform(const, n=inc)", lambda o, ip: o.transform(lambda cur: whole, n=lambda v: v + 1, _inplace=False), lambda r: (r.n, r.inner.x), (8, 5)),
+        ]
+        for label, call, view, want in calls:
+            for ip in (False, True):
+                for rnd in (1, 2, 3):
+                    ctx.count("relations_judged")
+                    ctx.count("constant_transform_calls")
+                    try:
+                        got = view(call(Outer(inner=Inner(x=1, y=2)), ip))
+                    except Exception as e:
+                        got = f"{type(e).__name__}: {e}"
+                    if got != want:
+                        ctx.violation("model_state", f"[directed] Outer(inner=Inner(x=1, y=2)).{label} (in place: {ip}), call #{rnd} with the same constant transform: state {got}, the model gives {want} every time",
+                                      features={"rel": "M", "hkind": "transform_attr" if "transform_inner" in label else "transform", "form": "constant_transform", "inplace": ip, "round": rnd, "lazy": not boot}, case=["const_transform", label, ip, boot])
+                        break
+        if (template.x, template.y) != (10, 20) or whole.n != 7:
+            ctx.violation("model_state", f"[directed] the objects handed back by the constant transforms were modified: template={template!r}, whole.n={whole.n}", features={"rel": "M", "hkind": "transform_attr", "form": "constant_transform_result_modified", "lazy": not boot}, case=["const_transform_modified", boot])
+    ctx.sig("directed", "constant_transforms")
+
+
 def run(ctx, params):
+    if params.get("directed"):
+        return directed_constant_transforms(ctx)
     rng = ctx.rng
     for ci in range(params["cases"]):
         decl = cg.gen_module(rng, {"frozen": False})
@@ -481,5 +529,5 @@ def run(ctx, params):
 
 def plan(tier, seed):
     if tier == "quick":
-        return [{"shard": i, "cases": 50, "judged_per_case": 10} for i in range(16)]
-    return [{"shard": i, "cases": 1000, "judged_per_case": 12} for i in range(32)]
+        return [{"directed": True}] + [{"shard": i, "cases": 50, "judged_per_case": 10} for i in range(16)]
+    return [{"directed": True}] + [{"shard": i, "cases": 1000, "judged_per_case": 12} for i in range(32)]
